@@ -220,24 +220,24 @@ theorem write_narrow (e : Env) (T : Term) (c y : Nat) (nc : Cell)
 
 theorem outputChar_spec (e : Env) (T : Term) (c y : Nat) (last : Option Nat) (nc : Cell)
     (g : Good e T ⟨c, y⟩ last) (hc : c < e.w) (hn : NoCont T) (hnc : NarrowCell cw nc) :
-    Good e (exec cw T (outputChar e.attrsOf last nc).1) ⟨c + 1, y⟩ (outputChar e.attrsOf last nc).2 ∧
-    Frame T (exec cw T (outputChar e.attrsOf last nc).1) ∧
-    NoCont (exec cw T (outputChar e.attrsOf last nc).1) ∧
-    (∀ y' x', (exec cw T (outputChar e.attrsOf last nc).1).cells y' x' =
+    Good e (exec cw T (outputChar e last nc).1) ⟨c + 1, y⟩ (outputChar e last nc).2 ∧
+    Frame T (exec cw T (outputChar e last nc).1) ∧
+    NoCont (exec cw T (outputChar e last nc).1) ∧
+    (∀ y' x', (exec cw T (outputChar e last nc).1).cells y' x' =
         if y' = y ∧ x' = c then tcellOf e.attrsOf nc else T.cells y' x') ∧
-    (exec cw T (outputChar e.attrsOf last nc).1).log = (y, c) :: T.log := by
+    (exec cw T (outputChar e last nc).1).log = (y, c) :: T.log := by
   unfold outputChar
   by_cases h1 : last = some nc.style
   · simp only [h1, if_true, exec_cons, exec_nil]
     have hs : T.sgr = e.attrsOf nc.style := by have := g.sgr; rw [h1] at this; exact this
     exact write_narrow cw e T c y nc g.geo hc hn hnc hs
   · simp only [h1, if_false]
-    by_cases h2 : needAttrs e.attrsOf last (e.attrsOf nc.style) = true
+    by_cases h2 : needAttrs e.rawOf last (e.rawOf nc.style) = true
     · simp only [h2, if_true, List.cons_append, List.nil_append, exec_cons, exec_nil]
-      have g' : Geo e (execCmd cw T (.setAttrs (e.attrsOf nc.style))) ⟨c, y⟩ :=
+      have g' : Geo e (execCmd cw T (.setAttrs (e.rawOf nc.style) e.depth (e.attrsOf nc.style))) ⟨c, y⟩ :=
         ⟨g.geo.w, g.geo.wpos, g.geo.row, g.geo.col, g.geo.rowlt, g.geo.aw⟩
       obtain ⟨a1, a2, a3, a4, a5⟩ :=
-        write_narrow cw e (execCmd cw T (.setAttrs (e.attrsOf nc.style))) c y nc g' hc hn hnc rfl
+        write_narrow cw e (execCmd cw T (.setAttrs (e.rawOf nc.style) e.depth (e.attrsOf nc.style))) c y nc g' hc hn hnc rfl
       exact ⟨a1, ⟨a2.h, a2.top, a2.scrolled, a2.oob, a2.visible⟩, a3, a4, a5⟩
     · simp only [h2]
       have hs : T.sgr = e.attrsOf nc.style := by
@@ -247,7 +247,7 @@ theorem outputChar_spec (e : Env) (T : Term) (c y : Nat) (last : Option Nat) (nc
           simp [needAttrs] at h2
           have := g.sgr
           simp only [SgrOk] at this
-          rw [this, h2.2]
+          rw [this]; simp only [Env.attrsOf, h2.2]
       exact write_narrow cw e T c y nc g.geo hc hn hnc hs
 
 /-- the differ's test `new_char.char != old_char.char or new_char.style != old_char.style` at column `x` -/
@@ -302,7 +302,7 @@ theorem colLoop_spec (e : Env) (s : Screen) (y : Nat) (newRow prevRow : List Cel
         have hnc1 : NoCont (exec cw T m.1) := by intro y' x'; rw [m3]; exact hnc y' x'
         obtain ⟨o1, o2, o3, o4, o5⟩ :=
           outputChar_spec cw e (exec cw T m.1) c y m.2 (cellAt newRow c) m1 (by omega) hnc1 (hnar c)
-        generalize outputChar e.attrsOf m.2 (cellAt newRow c) = o at *
+        generalize outputChar e m.2 (cellAt newRow c) = o at *
         have hy3 : y < (exec cw (exec cw T m.1) o.1).h := by rw [o2.h, m2.h]; exact hy
         obtain ⟨r1, r2, r3, r4, r5⟩ :=
           ih (c + 1) ⟨c + 1, y⟩ o.2 (exec cw (exec cw T m.1) o.1) (by omega) o1 o3 hy3
